@@ -1,6 +1,9 @@
 //! Logic related to the Carrier, the component in charge or sending/requesting transaction data from/to `bitcoind`.
 
 use std::collections::HashMap;
+#[cfg(feature = "verif-hooks")]
+use crate::verif_sync::{Arc, Condvar, Mutex};
+#[cfg(not(feature = "verif-hooks"))]
 use std::sync::{Arc, Condvar, Mutex};
 
 use crate::responder::ConfirmationStatus;
